@@ -258,7 +258,14 @@ func OracleObservedResult(prop string, v *View) []Violation {
 	if decl == nil {
 		return []Violation{viol(prop, "undeclared-output", "", "returned output %q is not declared", c.OutputID)}
 	}
-	obs := Observe(v.C.Program, v.Facts.Input, v.Events, c.EndSeq, v.Shutdown)
+	// A run that was told to stop closes its steps while they may still hold results nobody has read:
+	// whatever the plugins emitted may or may not have reached the data an output built during the
+	// teardown is made from (optional fields may be absent; what is present must be genuine).
+	sd := v.Shutdown
+	if c.Cancelled && sd > 0 {
+		sd = 1
+	}
+	obs := Observe(v.C.Program, v.Facts.Input, v.Events, c.EndSeq, sd)
 	if bad, ok := producedBefore(obs, decl.E, c.EndSeq+1); !ok {
 		return []Violation{viol(prop, "output-without-dependency", refKind(bad), "output %q was returned although %s had not been produced in this run", c.OutputID, bad)}
 	}
